@@ -98,7 +98,7 @@ class Check(AddCheck):
             for j in range(12):
                 doc = gens.random_story_message(rng, sids, 300 + j, fresh) if rng.random() < 0.5 else \
                     gens.random_item_message(rng, sids, items, 300 + j, fresh)
-                yield {'ro': ro, 'msg': to_text(doc, pretty=rng.random() < 0.2), 'meta': {'cls': doc[3][0].tag, 'n': len(sids), 'layout': 'rich'}}
+                yield {'ro': ro, 'msg': to_text(doc, pretty=rng.random() < 0.2), 'meta': {'cls': doc[3].tag, 'n': len(sids), 'layout': 'rich'}}
         yield from metadata_cases(rng)
         nm = 2 if tier == 'quick' else 3
         yield from gens.merge_cases_story(n_max=nm, max_src=2, layouts=['between', 'trailing'])
